@@ -10,6 +10,13 @@ Read with `ast` from the files themselves (no import needed):
     timeout_modifier, _read_until_prompt_or_time and read_callback, sync and asyncio): how many
     assignments set the value, how many of those are covered by a try whose `finally` restores it,
     how many restores sit in a `finally`, how many outside;
+  * for the same six places, WHERE the value that is put back lives: a restore `X.timeout_* = name` counts as
+    "from the frame" when `name` is bound in that very function's own scope by `name = Y.timeout_*` and is not
+    declared nonlocal / global there (a local of the wrapper CALL: one per call, also for a coroutine); every
+    other restore in a `finally` (an attribute such as self._saved / cls.slot, a free variable of an
+    enclosing function, a global, a call) counts as "from elsewhere": such a slot is shared by every
+    connection that runs the same decorated method, and overlapping calls restore each other's value
+    (coq/model/TimeoutOverlap.v);
   * the thread based timeout of the sync stack (decorators._multiprocessing_timeout): which functions of
     scrapli/decorators.py start a thread / an executor at all, and whether the one executor is left in a
     way that JOINS its worker before the ScrapliTimeout can reach the caller (`with ThreadPoolExecutor(..)`
@@ -161,6 +168,69 @@ def analyse_swaps(fn):
     return res
 
 
+def own_nodes(fn):
+    """nodes of fn's own scope: not descending into nested function / class / lambda bodies"""
+    out = []
+    todo = list(fn.body)
+    while todo:
+        n = todo.pop()
+        out.append(n)
+        if isinstance(n, FUNC + (ast.ClassDef, ast.Lambda)):
+            continue
+        for ch in ast.iter_child_nodes(n):
+            if isinstance(ch, FUNC + (ast.ClassDef, ast.Lambda)):
+                out.append(ch)
+                continue
+            todo.append(ch)
+    return out
+
+
+def analyse_saved(fn):
+    """(restores whose value is a local of this function's frame, restores from anywhere else)"""
+    own = own_nodes(fn)
+    escaping = set()
+    for n in own:
+        if isinstance(n, (ast.Nonlocal, ast.Global)):
+            escaping.update(n.names)
+    params = {a.arg for a in fn.args.posonlyargs + fn.args.args + fn.args.kwonlyargs}
+    bound = {}
+    for n in own:
+        if isinstance(n, ast.Name) and isinstance(n.ctx, ast.Store):
+            bound[n.id] = bound.get(n.id, 0) + 1
+    saved = set()
+    for n in own:
+        if (isinstance(n, ast.Assign) and len(n.targets) == 1 and isinstance(n.targets[0], ast.Name) and is_timeout_attr(n.value)
+                and n.targets[0].id not in escaping and n.targets[0].id not in params and bound.get(n.targets[0].id) == 1):
+            saved.add(n.targets[0].id)
+    res = {"frame": 0, "elsewhere": 0}
+
+    def walk(stmts, in_finally):
+        for s in stmts:
+            if isinstance(s, FUNC) or isinstance(s, ast.ClassDef):
+                continue
+            if isinstance(s, (ast.Assign, ast.AugAssign, ast.AnnAssign)):
+                targets = s.targets if isinstance(s, ast.Assign) else [s.target]
+                if any(is_timeout_attr(t) for t in targets):
+                    v = s.value
+                    from_frame = isinstance(s, ast.Assign) and isinstance(v, ast.Name) and v.id in saved
+                    if from_frame:
+                        res["frame"] += 1
+                    elif in_finally:
+                        res["elsewhere"] += 1
+            if isinstance(s, ast.Try):
+                walk(s.body, in_finally)
+                for h in s.handlers:
+                    walk(h.body, in_finally)
+                walk(s.orelse, in_finally)
+                walk(s.finalbody, True)
+            else:
+                for _, b in blocks_of(s):
+                    walk(b, in_finally)
+
+    walk(fn.body, False)
+    return res
+
+
 SPAWNERS = ("ThreadPoolExecutor", "ProcessPoolExecutor", "Thread", "Process", "Timer", "start_new_thread",
             "run_in_executor", "to_thread")
 POOL_FUNC = "_multiprocessing_timeout"
@@ -307,6 +377,7 @@ def generate(outdir):
     next_timeout = ms(params_with_defaults(init)["next_timeout"], "ReadCallback.next_timeout")
     # swap sites
     sites = []
+    saved_sites = []
     for rel, cname, fname, inner in SWAP_SITES:
         tree = trees.setdefault(rel, parse(rel))
         if cname is None:
@@ -319,8 +390,11 @@ def generate(outdir):
             for f in inners:
                 kind = "async" if isinstance(f, ast.AsyncFunctionDef) else "sync"
                 sites.append(("%s.%s.%s" % (fname, inner, kind), analyse_swaps(f)))
+                saved_sites.append(("%s.%s.%s" % (fname, inner, kind), analyse_saved(f)))
         else:
             sites.append(("%s.%s" % (cname, fname), analyse_swaps(fns[(cname, fname)])))
+            saved_sites.append(("%s.%s" % (cname, fname), analyse_saved(fns[(cname, fname)])))
+    saved_local = bool(saved_sites) and all(r["frame"] >= 1 and r["elsewhere"] == 0 for _, r in saved_sites)
     # any other function of the scanned classes that assigns a timeout attribute is a swap site we do not know
     known = {(c, f) for _, c, f, _ in SWAP_SITES if c}
     others = []
@@ -359,6 +433,12 @@ def generate(outdir):
     lines.append("Definition gen_swap_sites : list (string * (nat * nat * nat * nat)) := [")
     lines.append(";\n".join("  (%s, (%d, %d, %d, %d)%%nat)" % (coq_str(n), r["sets"], r["guarded"], r["rin"], r["rout"]) for n, r in sites))
     lines.append("].\n")
+    lines.append("(* site, restores whose value is a local of the function's own frame, restores (in a finally) from anywhere else *)")
+    lines.append("Definition gen_saved_in_frame : list (string * (nat * nat)) := [")
+    lines.append(";\n".join("  (%s, (%d, %d)%%nat)" % (coq_str(n), r["frame"], r["elsewhere"]) for n, r in saved_sites))
+    lines.append("].\n")
+    lines.append("(* every swap site keeps the value it puts back in a local of the call's frame *)")
+    lines.append("Definition gen_saved_local : bool := %s.\n" % ("true" if saved_local else "false"))
     lines.append("Definition gen_other_swap_sites : list string := [%s].\n" % "; ".join(coq_str(x) for x in others))
     lines.append("(* the thread based timeout: leaving the executor joins the worker; the functions of decorators.py that start threads *)")
     lines.append("Definition gen_pool_joins : bool := %s.\n" % ("true" if pool_joins else "false"))
@@ -369,7 +449,8 @@ def generate(outdir):
         open(path, "w").write(text)
     info = {"methods": len(methods), "decorated": ["%s.%s" % d for d in sorted(decorated)],
             "handovers": len(handovers), "handovers_not_by_keyword": ["%s.%s->%s" % h[:3] for h in handovers if not h[3]],
-            "swap_sites": {n: r for n, r in sites}, "other_swap_sites": others,
+            "swap_sites": {n: r for n, r in sites}, "saved_in_frame": {n: r for n, r in saved_sites}, "saved_local": saved_local,
+            "other_swap_sites": others,
             "next_timeout_default_ms": next_timeout, "read_duration_when_none_ms": dict(none_defaults),
             "pool_joins": pool_joins, "pool_joins_why_not": pool_why, "thread_sites": thread_sites}
     return path, info
